@@ -18,3 +18,6 @@ import JugModel.Props.Memo
 #print axioms Jug.MemoProps.lock_seen_through_wrapper
 #print axioms Jug.MemoProps.lock_seen_failed_first
 #print axioms Jug.MemoProps.classify_through_wrappers
+#print axioms Jug.MemoProps.canLoadRun_truthful
+#print axioms Jug.MemoProps.canLoadRun_asks_once
+#print axioms Jug.MemoProps.canLoadRun_lookups_le
